@@ -135,10 +135,18 @@ type prep struct {
 	Poison  bool    `json:"poison,omitempty"`  // overwrite code with int3/brk filler and fix the CRC
 }
 
+var srcCache = map[string][]byte{}
+
 func (p *prep) build() ([]byte, error) {
-	b, err := os.ReadFile(p.Src)
-	if err != nil {
-		return nil, err
+	b, ok := srcCache[p.Src]
+	if !ok {
+		var err error
+		if b, err = os.ReadFile(p.Src); err != nil {
+			return nil, err
+		}
+		if len(srcCache) < 8 {
+			srcCache[p.Src] = b
+		}
 	}
 	return p.apply(b)
 }
